@@ -12,7 +12,7 @@
   update per C branch, so that the proofs (Proofs/Push.lean) can treat them one by one.
 -/
 import NngModel.Proto.Base
-import NngModel.Generated.Consts
+import NngModel.Generated.C06
 namespace Nng.Push
 open Nng Nng.Proto
 
